@@ -145,6 +145,7 @@ type prfCase struct {
 	// key's ACCESSORS (copies by contract). A PRF whose later outputs change has handed out its own state.
 	scribble func()
 	nOne     int
+	scratch  []byte
 }
 
 func (c *prfCase) inputs(n int) [][]byte {
@@ -162,7 +163,12 @@ func (c *prfCase) one(in, want []byte, n int) bool {
 	}
 	var out []byte
 	var err error
-	buf := bytes.Clone(in)
+	// the input travels in a buffer the caller reuses for every call (same slice, new contents)
+	if cap(c.scratch) < len(in) {
+		c.scratch = make([]byte, len(in)+1024)
+	}
+	buf := c.scratch[:len(in):len(in)]
+	copy(buf, in)
 	if in == nil {
 		buf = nil
 	}
